@@ -182,6 +182,12 @@ class Metadata(Family):
                             ctx.claim("loader-makes-one-remote-request", len(cur) == 1, {"loader": a})
                             if len(cur) == 1:
                                 recs[a] = dict(cur[0])
+                            # keyword arguments (unpack flag, data home, flags) are handed through to the remote loader
+                            del cur[:]
+                            getattr(mod, a)(unpack_dataset_columns=True, data_home="/somewhere", download_if_missing=False)
+                            ok = len(cur) == 1 and cur[0].get("unpack_dataset_columns") is True and \
+                                cur[0].get("data_home") == "/somewhere" and cur[0].get("download_if_missing") is False
+                            ctx.claim("loader-forwards-keyword-arguments", ok, {"loader": a})
                 finally:
                     mod.load_csv_dataset_from_remote = saved
             remote_names = [nm for fam in ("ams_ix", "ix_br", "mix_it") for (nm, _) in docs[fam]]
